@@ -401,6 +401,16 @@ var c01FrontOaPinned = []frontOaPinned{
 		[]string{`9223372036854775808`, `9223372036854775807`, `-9223372036854775808`, `1.0`, `1.5`}},
 	// witness of C01_openapi_parser_sound_counterexample (lean/Cog/Props/C01.lean: `OA.cxComps`)
 	{"oapinnullbool", `{"R": {"type": "boolean", "nullable": true}}`, "R", []string{`null`, `true`, `0`}},
+	{"oapinflat", `{"R": {"type": "object", "additionalProperties": false, "required": ["code", "n"], "properties": {
+	    "code": {"type": "string", "minLength": 2, "maxLength": 4, "default": "ab"},
+	    "flag": {"type": "boolean", "default": true},
+	    "n": {"type": "integer", "format": "int64", "minimum": 1, "maximum": 10, "default": 3},
+	    "i32": {"type": "integer", "format": "int32", "minimum": -5, "exclusiveMinimum": true, "nullable": true},
+	    "pm": {"type": "string", "pattern": "^math$"},
+	    "r": {"type": "number", "format": "double", "minimum": 0.5, "maximum": 7.25, "exclusiveMaximum": true, "default": 1.5}
+	  }}}`, "R",
+		[]string{`{"code":"abc","n":1}`, `{"code":"a","n":1}`, `{"code":"abcde","n":11,"r":0.25}`, `{"code":"ab","n":0,"r":7.25,"flag":false}`,
+			`{"code":"ab","n":5,"r":7,"pm":"math","i32":-4,"flag":true}`, `{"code":"abcdefgh","n":-3,"r":100,"i32":-5}`}},
 	{"oapinerrors1", `{"R": {"type": "array"}}`, "R", nil},
 	{"oapinerrors2", `{"R": {"enum": ["a"]}}`, "R", nil},
 	{"oapinerrors3", `{"R": {"type": "boolean", "enum": [true]}}`, "R", nil},
@@ -464,6 +474,9 @@ func c01FrontOaEmit(out *bufio.Writer, c frontOaCase, hist map[string]int) {
 	}
 	vir := virSchemas(ast.Schemas{real})
 	fmt.Fprintf(out, "oafront %s\tok %s\tok\n", c.ID, vir)
+	fmt.Fprintf(out, "defschemas %s.fe %s\tok\tok\n", c.ID, vir)
+	// instances of keeps_property and of the C10 compositions on the REAL front-end IR (lean/Cog/Drv/KeepsDrv.lean)
+	fmt.Fprintf(out, "oafkeeps %s %s.fe\t-\tok\n", c.ID, c.ID)
 	if len(c.Docs) == 0 || c.Root == "" || doc.Components == nil {
 		return
 	}
@@ -471,7 +484,10 @@ func c01FrontOaEmit(out *bufio.Writer, c frontOaCase, hist map[string]int) {
 	if rootRef == nil || rootRef.Value == nil {
 		return
 	}
-	fmt.Fprintf(out, "defschemas %s.fe %s\tok\tok\n", c.ID, vir)
+	for _, d := range c.Docs {
+		// instances of the C08 composition: every sub-document at a flat object component
+		fmt.Fprintf(out, "oafc08 %s %s.fe %s %s\t-\tok\n", c.ID, c.ID, c.Root, d.Doc.sexp())
+	}
 	for _, d := range c.Docs {
 		valid := func() (ok bool) {
 			defer func() {
